@@ -5,6 +5,7 @@ of a Go map is printed sorted.
 -/
 import Golib.Proto
 import Golib.Model.C12KV
+import Golib.Model.C12PKV
 
 namespace Golib.C12
 open Golib.Proto
@@ -128,6 +129,7 @@ def runOps : List Nat → KV → List String → List String
 
 def runCase (hdr : List String) (ops : List String) : List String :=
   match hdr with
+  | ["fkv", kind] => P.runCase kind ops
   | ["kv", cap] =>
     match cap.toNat? with
     | some _ => "ok" :: runOps [] [] ops
